@@ -85,7 +85,7 @@ static void gen_trigger(int trig, int full) {
         int variants = 1;
         casing(tok, "chunked", tk);
         CT.trig = trig; CT.must_set = 0; CT.must_clear = 0; CT.expect_chunked = 0;
-        if (trig == T_CL_UNPARSEABLE) variants = 4; else if (trig == T_TE_UNSUPPORTED) variants = 3; else if (trig == T_HOSTH_INVALID || trig == T_HOSTU_INVALID) variants = 8; else if (trig == T_TE_CL) variants = 5;
+        if (trig == T_CL_UNPARSEABLE) variants = 4; else if (trig == T_TE_UNSUPPORTED) variants = 3; else if (trig == T_HOSTH_INVALID || trig == T_HOSTU_INVALID) variants = 8; else if (trig == T_TE_CL) variants = 5; else if (trig == T_HOST_MISSING) variants = 3;
         for (int v = 0; v < variants; v++) {
             nl = 0; reqline = "POST /p HTTP/1.1\r\n"; body = "abc"; host = "h.example";
             casing(nm, "Host", nc);
@@ -106,7 +106,10 @@ static void gen_trigger(int trig, int full) {
                 case T_TE_UNSUPPORTED: { static const char *const BAD[] = { "gzip", "identity", "chunkedx" }; casing(nm2, "Transfer-Encoding", nc); snprintf(L[nl++].text, 96, "%s:%s%s%s\r\n", nm2, OWS[o1], BAD[v], OWS[o2]); body = ""; CT.must_set = HTP_REQUEST_INVALID; break; }
                 case T_HOST_DIFFERS: reqline = "POST http://other.example/p HTTP/1.1\r\n"; casing(nm2, "Content-Length", nc); snprintf(L[nl++].text, 96, "%s: 3\r\n", nm2); CT.must_set = HTP_HOST_AMBIGUOUS; break;
                 case T_PORT_DIFFERS: reqline = "POST http://h.example:81/p HTTP/1.1\r\n"; host = "h.example:82"; casing(nm2, "Content-Length", nc); snprintf(L[nl++].text, 96, "%s: 3\r\n", nm2); CT.must_set = HTP_HOST_AMBIGUOUS; break;
-                case T_HOST_MISSING: have_host = 0; casing(nm2, "Content-Length", nc); snprintf(L[nl++].text, 96, "%s: 3\r\n", nm2); CT.must_set = HTP_HOST_MISSING; break;
+                case T_HOST_MISSING: have_host = 0; casing(nm2, "Content-Length", nc); snprintf(L[nl++].text, 96, "%s: 3\r\n", nm2); CT.must_set = HTP_HOST_MISSING;
+                    /* the Host FIELD is what is missing: a target that names a host (absolute-form, authority-form) does not replace it */
+                    if (v == 1) reqline = "POST http://h.example/p HTTP/1.1\r\n"; else if (v == 2) reqline = "POST http://h.example:8080/p?q=1 HTTP/1.1\r\n";
+                    break;
                 case T_HOSTH_INVALID: { static const char *const BAD[] = { "a..b", ".a", "a b", "a!b", "[::1", "h.example:0", "h.example:65536", "h.example:x" }; host = BAD[v]; casing(nm2, "Content-Length", nc); snprintf(L[nl++].text, 96, "%s: 3\r\n", nm2); CT.must_set = HTP_HOSTH_INVALID; break; }
                 case T_HOSTU_INVALID: { static const char *const BAD[] = { "POST http://a..b/p HTTP/1.1\r\n", "POST http://.a/p HTTP/1.1\r\n", "POST http://a!b/p HTTP/1.1\r\n", "POST http://[::1/p HTTP/1.1\r\n", "POST http://[::zz]/p HTTP/1.1\r\n",
                                                                      "POST http://h.example:0/p HTTP/1.1\r\n", "POST http://h.example:65536/p HTTP/1.1\r\n", "POST http://h.example:x/p HTTP/1.1\r\n" };
